@@ -19,6 +19,7 @@ import ast
 from typing import List
 
 from asl.cfg import cfg_of
+from asl.flow import find_path, pretty_path
 from asl.loader import AnalysisError, norm, own_nodes
 from . import c07
 from .lru import enumerate_paths
@@ -45,6 +46,7 @@ def run(ctx) -> None:
                       ("R08.3", "__aexit__ disables the wrapper then closes the iterator, once each, on every path"),
                       ("R08.4", "scoped_iter wraps the very iterator; neutral context only without aclose")):
         ctx.rule(rid, text)
+    ctx.floor("single_use_guards", 1)
     ctx.assume("async with runs __aexit__ on normal exit, exception and cancellation (language semantics)")
     r08_1(ctx)
     r08_2(ctx)
@@ -57,6 +59,97 @@ def run(ctx) -> None:
     ctx.rule("R08.5", "consumption of a shared handle matches the stdlib: islice table (R05.5) and lock-step argument order (R05.6)")
     c05.r05_5(Relabel(ctx, "R08.5"))
     c01._lockstep_order(Relabel(ctx, "R08.5"))
+    r08_6(ctx)
+
+
+def _field_writes(unit, fld: str):
+    """AST constructs of ``unit`` that (re)bind or delete ``self.<fld>``."""
+    from asl.values import _flatten_targets
+    me = unit.param_names()[0] if unit.param_names() else "self"
+    out = []
+    for n in own_nodes(unit.node):
+        targets = []
+        if isinstance(n, ast.Assign):
+            targets = n.targets
+        elif isinstance(n, (ast.AugAssign, ast.AnnAssign, ast.NamedExpr, ast.For, ast.AsyncFor)):
+            targets = [n.target]
+        elif isinstance(n, ast.Delete):
+            targets = n.targets
+        elif isinstance(n, (ast.With, ast.AsyncWith)):
+            targets = [i.optional_vars for i in n.items if i.optional_vars is not None]
+        elif isinstance(n, ast.Call) and norm(n.func).split(".")[-1] in ("setattr", "delattr", "__setattr__", "__delattr__"):
+            if any(isinstance(a, ast.Constant) and a.value == fld for a in n.args):
+                out.append(n)
+        for t in targets:
+            for sub in _flatten_targets(t):
+                if isinstance(sub, ast.Attribute) and sub.attr == fld and isinstance(sub.value, ast.Name) and sub.value.id == me:
+                    out.append(n)
+    return out
+
+
+def r08_6(ctx) -> None:
+    """'Closed exactly once': a context object hands out one wrapper and is used up by that.
+    ``__aenter__`` builds the wrapper only on the arm of a test that finds the wrapper field
+    unset, and nothing but ``__init__`` (to None) and that one store ever writes the field —
+    so a context that was left can not be entered a second time (second handle, second close)."""
+    ctx.rule("R08.6", "the scope is single-use: the wrapper field is written once, under the guard that finds it unset, and never reset")
+    info = ctx.pkg.cls(CTX)
+    enter = ctx.inlined(info.methods["__aenter__"])
+    cfg = cfg_of(enter)
+    scoped_fq = ctx.pkg.cls(SCOPED).fq
+    me = enter.param_names()[0]
+    stores = []
+    for n in cfg.nodes:
+        if n.kind != "store" or n.tag:
+            continue
+        for t in n.info.get("targets", []):
+            if isinstance(t, ast.Attribute) and isinstance(t.value, ast.Name) and t.value.id == me:
+                v = ctx.vals.expr(enter, n.info.get("value"), n)
+                if any(a[0] == "libinst" and a[1] == scoped_fq for a in v):
+                    stores.append((n, t.attr))
+    fields = sorted({f for _n, f in stores})
+    ctx.check(len(fields) == 1, "R08.6", enter, "__aenter__", "the wrapper handed to the block is kept in one attribute of the context",
+              witness=str(fields))
+    if len(fields) != 1:
+        return
+    fld = fields[0]
+    ctx.count("single_use_guards")
+
+    def unset_arm(b) -> str:
+        """the branch label on which ``self.<fld>`` is known to be unset ('' = not a test of the field)"""
+        e, flip = b.ast, False
+        while isinstance(e, ast.UnaryOp) and isinstance(e.op, ast.Not):
+            e, flip = e.operand, not flip
+        arm = ""
+        if isinstance(e, ast.Attribute) and norm(e) == f"{me}.{fld}":
+            arm = "f"
+        elif isinstance(e, ast.Compare) and len(e.ops) == 1 and norm(e.left) == f"{me}.{fld}" \
+                and isinstance(e.comparators[0], ast.Constant) and e.comparators[0].value is None:
+            arm = "t" if isinstance(e.ops[0], (ast.Is, ast.Eq)) else "f" if isinstance(e.ops[0], (ast.IsNot, ast.NotEq)) else ""
+        if arm and flip:
+            arm = "f" if arm == "t" else "t"
+        return arm
+
+    for n, _f in stores:
+        path = find_path(cfg.entry, lambda x, n=n: x is n,
+                         edge_ok=lambda a, lab, b: lab not in ("e", "p") and not (a.kind == "branch" and unset_arm(a) == lab))
+        ctx.check(path is None, "R08.6", enter, n, f"the wrapper is created only after `self.{fld}` was found unset "
+                  "(a scope that was entered before refuses to be entered again)", node=n, witness=pretty_path(path))
+    for name, meth in info.methods.items():
+        writes = _field_writes(meth, fld)
+        if name == "__init__":
+            bad = [w for w in writes if not (isinstance(w, (ast.Assign, ast.AnnAssign)) and isinstance(w.value, ast.Constant)
+                                             and w.value.value is None)]
+        elif name == "__aenter__":
+            keep = {id(n.stmt) for n, _f in stores} | {id(n.ast) for n, _f in stores}
+            bad = [w for w in writes if id(w) not in keep and not any(w is s.stmt or w is s.ast for s, _f in stores)]
+            if ctx.inlined(meth) is not meth:
+                bad = []  # (written by a private helper: the stores were examined on the inlined view)
+        else:
+            bad = writes
+        ctx.check(not bad, "R08.6", meth, bad[0] if bad else name,
+                  f"`self.{fld}` is not reset or replaced outside the guarded store: once used, the scope stays used",
+                  line=getattr(bad[0], "lineno", None) if bad else None)
 
 
 def r08_1(ctx) -> None:
